@@ -131,6 +131,13 @@ def run(ck):
         specs += [sb, st]
         expect[sb["mod"]] = ("fail", kinds, bad, flags)
         expect[st["mod"]] = ("build", None, twin, flags)
+    # handlers under `#[cfg(..)]` attributes that both hold: still two handlers for one header
+    for (nm, dd, want) in (("c_cfg_gated", ["SYSTem:LOG:LEVel?", "SYSTem:LOG:LEVel?"], "fail"), ("t_cfg_gated", ["SYSTem:LOG:LEVel?", "SYSTem:LOG:RATE?"], "build")):
+        sp = mk(nm, dd, ())
+        sp["decls"][0]["attrs"] = ['#[cfg(not(feature = "verif_absent_a"))]']
+        sp["decls"][1]["attrs"] = ['#[cfg(not(feature = "verif_absent_b"))]']
+        specs.append(sp)
+        expect[sp["mod"]] = (want, {"QueryExists"} if want == "fail" else None, dd, ())
     for (name, decls, flags) in controls():
         sp = mk(name, decls, flags)
         _, coll = S.language(S.full_decls(sp))
